@@ -49,6 +49,8 @@ def digest(obj):
 def enc(v, _depth=0):
     if v is None or isinstance(v, (bool, str)):
         return v
+    if _depth > 40:
+        return {'$repr': '<deeper than 40 levels / cyclic>'}
     if isinstance(v, int):
         if abs(v) < 2 ** 53:
             return {'$int': v}
@@ -183,6 +185,16 @@ class Ctx:
 # Driving a property with Hypothesis
 # ---------------------------------------------------------------------------------------------
 
+SHRINK_BUDGET = 12.0
+
+
+def _same_args(a, b):
+    try:
+        return a == b or repr(a) == repr(b)
+    except Exception:  # pylint: disable=broad-except
+        return False
+
+
 def hyp_seed(seed, shard, salt=0):
     return (int(seed) * 1000003 + shard * 7919 + salt * 104729) % (2 ** 63)
 
@@ -204,6 +216,11 @@ def run_hypothesis(ctx, prop, strategies, max_examples, salt=0, shrink=True, exc
         last = {}
 
         def wrapped(args):
+            # Hypothesis' shrinker has no time limit of its own (only a hard 5 minute cap): once SHRINK_BUDGET seconds
+            # have passed since the first failure, only the best failing input found so far keeps failing, so the
+            # shrinker converges at once and the final replay still reproduces.
+            if 't0' in last and time.time() - last['t0'] > SHRINK_BUDGET and not _same_args(args, last.get('args')):
+                return
             try:
                 prop(*args)
             except Violation as v:
@@ -211,6 +228,8 @@ def run_hypothesis(ctx, prop, strategies, max_examples, salt=0, shrink=True, exc
                     ctx.known_case('suppressed-after-report:' + v.bucket)
                     return
                 last['v'] = v
+                last['args'] = args
+                last.setdefault('t0', time.time())
                 raise
 
         st_settings = settings(
